@@ -249,7 +249,7 @@ type c25Result struct {
 }
 
 var c25Filters = []string{"*", "", "user", "user:deploy", "query", "member-join", "member-leave,member-failed", "user:deploy,query:c25q1",
-	"member-update", "user:restart,member-join", "query:c25pq", "member-failed", "user:", "bogus", "user,bogus", "member-join,*"}
+	"member-update", "user:restart,member-join", "query:c25pq", "member-failed", "user:", "bogus", "user,bogus", "member-join,*", "user:deploy:web", "user:deploy:web,user:x", "user:a:b:c"}
 
 func c25Case(t *testing.T, rng *rand.Rand) (res c25Result) {
 	res.counts = map[string]int{}
@@ -358,7 +358,7 @@ func c25Case(t *testing.T, rng *rand.Rand) (res c25Result) {
 		inject := func() {
 			switch rng.Intn(9) {
 			case 0, 1, 2: // user event through the connection itself
-				name := []string{"deploy", "restart", "x", ""}[rng.Intn(4)]
+				name := []string{"deploy", "restart", "x", "", "deploy:web", "a:b:c", "deploy:"}[rng.Intn(7)]
 				simple("event", "plain", &ipcEventReq{Name: name, Payload: []byte(fmt.Sprint("p", rng.Intn(100))), Coalesce: rng.Intn(2) == 0})
 				tr("event %q", name)
 			case 3, 4: // member join through serf's event delegate
